@@ -116,20 +116,34 @@ def main():
                 ck.case(("dup", i, j, tuple(arr)))
                 if got2 != got:
                     fails.append({"what": "duplicate of segment %d re-inserted at %d changes the records" % (i, j), "arrivals": [(s, q, p.hex()) for s, q, p in arr2], "got": str(got2)[:300]})
-    # ---- dedicated cases of the two open findings (reordering at an empty buffer; sequence numbers wrapping past 2^32)
-    r1, r2 = b"\x17\x03\x03\x00\x02ab", b"\x17\x03\x03\x00\x04cdef"
-    r3 = b"\x17\x03\x03\x00\x01z"
+    # ---- reordering and sequence-number wrap (both were findings of the original tree, repaired by a "fix:" commit; kept as regression cases)
+    r1, r2, r3 = b"\x17\x03\x03\x00\x02ab", b"\x17\x03\x03\x00\x04cdef", b"\x17\x03\x03\x00\x01z"
     base = arrivals_of([r1, r2[:4], r2[4:]], 1000)
     whole = arrivals_of([r1, r2, r3], 1000)
     expect([whole[0], whole[2], whole[1]], [(True, r1), (True, r2), (True, r3)],
-           "reorder: a displaced segment that arrives at an empty buffer is framed as if it started a record (records R1 R3 R2 handed out of order)", tag="reorder-empty-buffer")
-    expect([base[0], base[2], base[1]], [(True, r1), (True, r2)], "reorder-partial: displaced tail of a record arrives at an empty buffer but does not frame")
-    wrap = arrivals_of([r1, r2[:4], r2[4:]], (1 << 32) - 9)
-    expect(wrap, [(True, r1), (True, r2)], "wrap: a record lying across sequence number 2^32 stalls its direction", tag="seq-wrap")
-    # reordering that never meets an empty buffer is handled by the sort
+           "reorder: a displaced segment that arrives at an empty buffer must wait for the segment that continues the stream")
+    expect([base[0], base[2], base[1]], [(True, r1), (True, r2)], "reorder-partial: displaced tail of a record arrives at an empty buffer")
+    for isn in [(1 << 32) - 9, (1 << 32) - 1, (1 << 32) - 7, (1 << 32) - 16, (1 << 32) - 17]:
+        expect(arrivals_of([r1, r2[:4], r2[4:], r3], isn), [(True, r1), (True, r2), (True, r3)], "wrap: the stream runs across sequence number 2^32 (isn 2^32-%d)" % ((1 << 32) - isn))
+        w = arrivals_of([r1, r2, r3], isn)
+        expect([w[0], w[2], w[1]], [(True, r1), (True, r2), (True, r3)], "wrap+reorder: displaced segment across 2^32 (isn 2^32-%d)" % ((1 << 32) - isn))
     expect([base[0], base[1], base[2]], [(True, r1), (True, r2)], "inorder: control")
     inner = arrivals_of([r1[:3], r1[3:5], r1[5:] + r2[:2], r2[2:]], 77)
     expect([inner[0], inner[2], inner[1], inner[3]], [(True, r1), (True, r2)], "reorder-inside: displaced while the buffer is non-empty")
+    # bounded displacement: every permutation moving a segment by at most 3 positions, the first segment of the direction staying first
+    for rep in range(6 if ck.tier == "quick" else 80):
+        recs = tiny_records(rng, rng.randrange(2, 6))
+        stream = b"".join(recs)
+        n = rng.randrange(2, min(7, len(stream)))
+        chunks = chunk(stream, sorted(rng.sample(range(1, len(stream)), n - 1)))
+        arr = arrivals_of(chunks, rng.choice([5, 1 << 31, (1 << 32) - rng.randrange(1, len(stream))]))
+        want = [(True, r) for r in recs]
+        for perm in itertools.permutations(range(1, len(arr))):
+            if all(abs(pos + 1 - idx) <= 3 for pos, idx in enumerate(perm)):
+                expect([arr[0]] + [arr[i] for i in perm], want, "displace<=3: permutation of %d segments (first stays first)" % len(arr))
+    # open finding: the very FIRST data segment of a direction is the displaced one and the segment that overtakes it frames as whole records
+    expect([whole[1], whole[0], whole[2]], [(True, r1), (True, r2), (True, r3)],
+           "first-displaced: the first data segment of a direction arrives after a later one that frames as whole records", tag="first-segment-displaced")
     # ---- end to end: the exported streams of a real connection do not depend on the schedule
     from tlexport import cipher_suite_parser as csp
     table = tlsgen.suite_table(csp)
@@ -176,8 +190,9 @@ def main():
         ck.violation("C05 is no longer shown to hold: " + "; ".join(b["kind"] for b in ck.broken),
                      {"broken": ck.broken, "searched": "%d arrival schedules on the implementation: none changes the records delivered" % ck.cov["evaluations"]}, found_input=False)
     ck.finish("proof", assumptions=[
-        "theorems cover (a) segmentation, (b) retransmitted exact duplicates and the interleaving of directions; (c) reordering across an empty buffer and (d) sequence "
-        "wrap are open findings of the code (known_findings.json), not theorems",
+        "theorems cover (a) segmentation, (b) retransmitted exact duplicates, (d) any initial sequence number incl. streams across 2^32 (< 2^31 bytes per direction "
+        "in flight) and the interleaving of directions; (c) bounded reordering is covered by the exhaustive displacement sweep of this check (theorem: DESIGN.md); "
+        "residual open finding: the very first data segment of a direction displaced",
         "records are well framed byte strings (wf_rec); dpkt parsing modelled"])
 
 
